@@ -58,7 +58,9 @@ SCOPE = (
     "all pairs of length 1..3 (+ seeded samples of length 4,5) with every lag in -(N-1)..N-1, "
     "mixed metrics and unequal embeddings; inter-system networks on a seeded sample of all "
     "pairs of length 1..4; recurrence networks (all series of length 1..4, thorough 5) and joint "
-    "recurrence networks.  Random: seeded float32 series of length 6..40, dimension 1..3.  "
+    "recurrence networks.  Random (quick 24 / thorough 150 per class group): seeded float32 "
+    "series of length 6..40, dimension 1..3, embeddings, lags of both signs.  Network classes "
+    "are only built with >= 2 nodes.  "
     "Equalities are exact for the exhaustive part; for random data cells within 1e-12 "
     "(relative) of the threshold are not judged, for threshold_std within 1e-5 (float32 std).  "
     "Every RQA method is called on each RecurrencePlot-derived object and compared with the "
